@@ -116,6 +116,8 @@ inline Outcome runSmootherCase(const KV& c, bool extrapolated)
     o.cls(nC % 2 ? "circles_odd" : "circles_even");
     if (threads > 1)
         o.cls("multithreaded");
+    if (n > 10000)
+        o.cls(threads > 1 ? "nodes_gt_10000_multithreaded" : "nodes_gt_10000");
     if (model)
         o.cls("model_compared");
 
@@ -231,6 +233,49 @@ inline Outcome runSmootherCase(const KV& c, bool extrapolated)
                     return o;
                 }
             }
+        }
+    }
+    if (!model) {
+        // without the model: both strategies agree (the black lines are not covered by the residual invariant), and on
+        // grids above the parallel-assembly threshold the multi-threaded objects agree with single-threaded ones
+        LD d = 0;
+        for (int k = 0; k < n; k++)
+            d = std::max(d, fabsl((LD)xt[k] - (LD)xg[k]));
+        o.mx("give_take_rel_diff_without_model", (double)(d / (xscale + 1e-300L)));
+        if (d > 1e-4L * xscale) { // line systems reach condition numbers of 1e8+ (R0 = 1e-8): rounding alone gives 1e-7
+            char buf[200];
+            snprintf(buf, sizeof buf, "give and take smoothing differ by %.3Le (scale %.3Le) on a %dx%d grid", d, xscale, nr, nt);
+            o.fail("give_take", buf);
+            return o;
+        }
+        if (n > 10000 && threads > 1) {
+            Vector<double> yt = x0, yg = x0, t3(n), t4(n);
+            omp_set_num_threads(1);
+            if (!extrapolated) {
+                SmootherTake st(g, H.levels[0]->levelCache(), *H.geometry, *H.coefficients, p.dirbc, 1);
+                SmootherGive sg(Hg.levels[0]->grid(), Hg.levels[0]->levelCache(), *Hg.geometry, *Hg.coefficients, p.dirbc, 1);
+                st.smoothing(yt, f, t3);
+                sg.smoothing(yg, f, t4);
+            }
+            else {
+                ExtrapolatedSmootherTake st(g, H.levels[0]->levelCache(), *H.geometry, *H.coefficients, p.dirbc, 1);
+                ExtrapolatedSmootherGive sg(Hg.levels[0]->grid(), Hg.levels[0]->levelCache(), *Hg.geometry, *Hg.coefficients, p.dirbc, 1);
+                st.extrapolatedSmoothing(yt, f, t3);
+                sg.extrapolatedSmoothing(yg, f, t4);
+            }
+            LD dt = 0, dg = 0;
+            for (int k = 0; k < n; k++) {
+                dt = std::max(dt, fabsl((LD)xt[k] - (LD)yt[k]));
+                dg = std::max(dg, fabsl((LD)xg[k] - (LD)yg[k]));
+            }
+            if (dt > 1e-6L * xscale || dg > 1e-4L * xscale) {
+                char buf[240];
+                snprintf(buf, sizeof buf, "sweep with %d threads differs from the single-threaded sweep on a %dx%d grid: take %.3Le, give %.3Le (scale %.3Le)",
+                         threads, nr, nt, dt, dg, xscale);
+                o.fail("parallel_vs_serial_large", buf);
+                return o;
+            }
+            o.cls("large_parallel_vs_serial_compared");
         }
     }
     bool hasBoth = nC >= 2 && nt >= 4;
@@ -394,6 +439,14 @@ inline KV genSmootherCase(bool extrapolated)
     go.nr_max   = model ? 15 : 33;
     go.nt_min   = 4;
     go.nt_max   = model ? 24 : 64;
+    if (!model && rint(0, 7) == 0) {
+        // above 10 000 nodes the smoothers assemble their line matrices inside `omp parallel if (n > 10'000)`: the
+        // invariant oracles (residual on the last colour, boundary data, give == take, coarse nodes) on such grids
+        go.nr_min = 65;
+        go.nr_max = 97;
+        go.nt_min = 160;
+        go.nt_max = 256;
+    }
     go.nt_mult4 = true;
     go.coarsenable = extrapolated;
     go.min_circles = extrapolated ? 3 : 2;
